@@ -120,10 +120,11 @@ E2E_PORTS = [
                                                          # max = the number of options (LAST_IMP), one past the last index
     ("p", "PA", 4, None, None, []),                      # rParams: "p#4::i" ...
     ("p", "PS", 4, None, None, []),                      # ... and the alias "p:"
+    ("r", "CO", 0, "0", "2", ["ra", "rb", "rc"]),        # rCOptionCb(getcode, setcode), the setter counts its invocations
 ]
 FKINDS = ("F", "AF")
-TAG = {"P": "c", "I": "i", "F": "f", "O": "i", "AF": "f", "AI": "i", "AO": "i", "PA": "i"}   # the port's own argument type
-ACCEPTS = {"P": "c", "I": "i", "F": "f", "O": "icS", "T": "TF", "AF": "f", "AI": "i", "AT": "TF", "AO": "icS", "PA": "i", "PS": ""}
+TAG = {"P": "c", "I": "i", "F": "f", "O": "i", "AF": "f", "AI": "i", "AO": "i", "PA": "i", "CO": "i"}   # the port's own argument type
+ACCEPTS = {"P": "c", "I": "i", "F": "f", "O": "icS", "T": "TF", "AF": "f", "AI": "i", "AT": "TF", "AO": "icS", "PA": "i", "PS": "", "CO": "icS"}
 
 def f32_bits(x):
     return struct.unpack("<I", struct.pack("<f", x))[0]
@@ -167,7 +168,7 @@ def rand_value(rng, path):
         return "f%d" % (rng.choice(FVALS) if rng.random() < 0.7 else f32_bits(rng.uniform(-10, 10)))
     if kind in ("T", "AT"):
         return rng.choice("TF")
-    if kind in ("O", "AO"):
+    if kind in ("O", "AO", "CO"):
         r = rng.random()
         if r < 0.3:
             return "S" + hx(rng.choice(opts))
@@ -317,7 +318,12 @@ def stored_value(pt, tv):
     return x
 
 def show_app(app):
-    return ",".join(str(app[hx("/" + path)]) for path, pt in ELEMS)
+    out = []
+    for path, pt in ELEMS:
+        out.append(str(app[hx("/" + path)]))
+        if pt[1] == "CO":
+            out.append(str(app["sets:" + hx("/" + path)]))       # rCOptionCb: setcode runs once per set message
+    return ",".join(out)
 
 def predict(case):
     """-> (list of (clause, expected field)), features, in_spec_domain"""
@@ -326,6 +332,7 @@ def predict(case):
     m = Ref()
     # e2e: the abstract object, address -> value (signed integers, floats as bit patterns, toggles 0/1)
     app = {hx("/" + path): 0 for path, pt in ELEMS}
+    app.update({"sets:" + hx("/" + path): 0 for path, pt in ELEMS if pt[1] == "CO"})
     before = {}     # e2e ghost: value of each parameter before its oldest retained change
     out = []
     ok = True
@@ -345,6 +352,8 @@ def predict(case):
                 cl = m.record(a, TAG[pt[1]], u32(app[a]), u32(v))
                 m.feat.add("kind-" + pt[1])
             app[a] = v
+            if "sets:" + a in app:
+                app["sets:" + a] += 1
             fld = m.show()
         elif p[0] == "q":
             cl, fld, hits = "query", m.show(), 1
@@ -354,6 +363,8 @@ def predict(case):
                 if kind == "e2e":
                     # the message sets its address to the event's old / new value
                     app[a] = v - (1 << 32) if (ty != "f" and v >= (1 << 31)) else v
+                    if "sets:" + a in app:
+                        app["sets:" + a] += 1
                     hits += 1
             fld = "m=%s p=%d n=%d" % (";".join("%s/%s/%d" % x for x in ms), m.pos, len(m.ev))
             if kind == "e2e":
